@@ -104,6 +104,7 @@ flow main
   activate llm continuation
   activate greeting
   activate value flow
+  activate interpolated value flow
 
 flow greeting
   user said "hi"
@@ -113,6 +114,11 @@ flow value flow
   user said "valueq"
   $x = ..."Return the name of the user as a string"
   bot say $x
+
+flow interpolated value flow
+  user said "valueqi"
+  $y = ..."Return the name of the user as a string"
+  bot say "The value is {$y} ok"
 ''' % SECRET_V2
 
 V2_SINGLE_CO = '''
@@ -139,7 +145,7 @@ MODES = {
     "v1_multi": ("v1", V1_CO, MAIN_MODELS + CUSTOM + "enable_multi_step_generation: True\n", {"free": ["intent", "steps", "msg", "msg"], "flow": ["intent", "msg"], "value": ["intent", "value"], "dynvalue": ["intent", "steps", "msg", "value", "msg"]}),
     "v1_general": ("v1", "", MAIN_MODELS + CUSTOM, {"free": ["general"]}),
     "v1_passthrough": ("v1", "", MAIN_MODELS + CUSTOM + "passthrough: True\n", {"free": ["passthrough"]}),
-    "v2_cont": ("v2", V2_CO, 'colang_version: "2.x"\n' + MAIN_MODELS + CUSTOM, {"free": ["v2intent", "v2cont"], "value": ["v2value"], "fromname": ["v2intent", "v2cont", "v2fromname"]}),
+    "v2_cont": ("v2", V2_CO, 'colang_version: "2.x"\n' + MAIN_MODELS + CUSTOM, {"free": ["v2intent", "v2cont"], "value": ["v2value"], "valuei": ["v2value"], "fromname": ["v2intent", "v2cont", "v2fromname"]}),
     "v2_single": ("v2", V2_SINGLE_CO, 'colang_version: "2.x"\n' + MAIN_MODELS + CUSTOM, {"free": ["v2single"]}),
 }
 
@@ -255,6 +261,12 @@ TAINT = [
     ("{$event.final_transcript}", UTOK), ("{{ history }}", UTOK), ("{len('abcdefg')+62615526}", "62615533"),
 ]
 # completions for a *value* position that are expressions, not literals: literal_eval must refuse them
+# string literals (accepted by literal_eval) whose content tries to leave the string literal it is later interpolated into
+BREAKOUT_VALUES = [
+    ('"a\\"\\" + str(7907*7919) #"', "62615533"), ("'a\"\" + str(7907*7919) #'", "62615533"), ('"x\\"\\" + $secret_var #"', "SECRETVAL"),
+    ('"y\\\\\\" + str(7907*7919) #"', "62615533"), ('"tail\\\\"', None), ("'q\\' + str(7907*7919) #'", "62615533"),
+    ('"z\\"\\"\\" + str(62615500+33) + \\"\\"\\""', "62615533"), ('"{7907*7919}"', "62615533"), ('"{{$secret_var}}"', "SECRETVAL"),
+]
 VALUE_TAINT = [("7907*7919", "62615533"), ("62615500+33", "62615533"), ("'QZ'*3", "QZQZQZ"), ("str(7907*7919)", "62615533"), ("len('abcdefg')+62615526", "62615533"), ('"6261" + "5533"', "62615533"), ("[7907*7919]", "62615533"), ("$secret_var", "SECRETVAL"), ("secret_var", "SECRETVAL")]
 ALL_MARKERS = ["62615533", "SECRETVAL", "QZQZQZ", UTOK]
 MUT_TOKENS = ['"', "\n", "$secret_var", "{{ 7907*7919 }}", "{", "}", "user ", "bot ", "define flow ", "...", "\x00", "#", ":", "  ", "\t", "if ", "(", ")", ",", "'", "=", "$", "\\", "{% for i in range(3) %}QZ{% endfor %}", " and ", " or ", "\n  ", "{62615500+33}", "😀"]
@@ -313,6 +325,8 @@ def _texts_for(kind, full):
     if kind in ("value", "v2value"):
         for i, (tx, mk) in enumerate(VALUE_TAINT):
             out.append(("taintv%d" % i, tx, _mk([mk], tx)))
+        for i, (tx, mk) in enumerate(BREAKOUT_VALUES):
+            out.append(("taintb%d" % i, tx, [mk] if mk else []))
     car = CARRIERS.get(kind)
     if car:
         for i, (tx, mk) in enumerate(TAINT):
@@ -345,7 +359,7 @@ def cases(tier, seed):
                 texts = _texts_for(k, not quick)
                 if quick:
                     stride = (1 if first else 3) * (3 if ver == "v2" else 1)
-                    texts = [x for j, x in enumerate(texts) if (x[0].startswith("taint") and (not x[0].startswith("taintw") or ver == "v2") and (first or x[0].startswith("tainti"))) or (not x[0].startswith("taint") and (j + seed) % stride == 0)]
+                    texts = [x for j, x in enumerate(texts) if (x[0].startswith("taint") and (not x[0].startswith("taintw") or ver == "v2") and (first or x[0].startswith(("tainti", "taintb")))) or (not x[0].startswith("taint") and (j + seed) % stride == 0)]
                 for origin, text, markers in texts:
                     i += 1
                     yield {"id": i, "mode": mode, "ttypes": [tt], "pos": p, "kind": k, "origin": origin, "text": text, "markers": markers}
@@ -549,6 +563,8 @@ def user_text(cid, t, ttype):
     # v2 `user said "valueq"` needs the exact text; everything else carries a unique token
     if ttype == "value":
         return "valueq"
+    if ttype == "valuei":
+        return "valueqi"  # the generated value is interpolated into a string: bot say "The value is {$y} ok"
     return "%s-%s-%d tell me" % (UTOK, cid, t)
 
 
